@@ -247,7 +247,7 @@ def build_model_runner(pid, extract_v, runner_ml, module, timeout=600):
 
 
 # ---------------------------------------------------------------- C++ --------
-CXXFLAGS = '-std=c++14 -O1 -g -DNDEBUG -I%s/include -Wno-deprecated-declarations -DPHOTON_VERIF' % REPO
+CXXFLAGS = '-std=c++14 -O1 -g -DNDEBUG -I%s/include -iquote %s -Wno-deprecated-declarations -DPHOTON_VERIF -DVERIF_REPO_DIR=\"%s\"' % (REPO, REPO, REPO)
 ASAN = '-fsanitize=address,undefined -fno-sanitize-recover=all -fno-omit-frame-pointer'
 
 
